@@ -123,6 +123,7 @@ def nonstrict_collections(s, n):
 def run(s):
     K.suite_workload(s)
     K.fixtures_workload(s)
+    K.huge_cases(s, 2 if s.tier == 'quick' else 12)
     K.pair_histories(s)
     q = s.tier == 'quick'
     for i in range(16 if q else 500):
